@@ -70,9 +70,20 @@ func (d *dumper) walk(v reflect.Value, depth int) {
 	}
 	t := v.Type()
 	switch t.PkgPath() + "." + t.Name() {
-	case "sync.Mutex", "sync.RWMutex", "sync.WaitGroup", "sync.Once",
-		"verif/vrt/vsync.Mutex", "verif/vrt/vsync.RWMutex", "verif/vrt/vsync.WaitGroup", "verif/vrt/vsync.Once":
+	case "sync.Mutex", "sync.RWMutex", "sync.WaitGroup":
 		d.sb.WriteString("<sync>")
+		return
+	case "verif/vrt/vsync.Mutex", "verif/vrt/vsync.RWMutex", "verif/vrt/vsync.WaitGroup":
+		// between two operations of a sequential history these are at rest; a lock or counter a call
+		// left behind is state (the next call will hang on it), so it is part of the dump. Once (either
+		// flavour) is walked like any struct: whether it has fired is state.
+		d.sb.WriteString("<sync")
+		for _, f := range []string{"locked", "wHeld", "readers", "n"} {
+			if fv := v.FieldByName(f); fv.IsValid() && !fv.IsZero() {
+				d.sb.WriteString(" " + f + "!")
+			}
+		}
+		d.sb.WriteString(">")
 		return
 	case "time.Time":
 		if v.CanInterface() {
